@@ -377,3 +377,8 @@ def node_kind(a):
 @prim(lambda ex, a: VInt(_item_attr('node_name')(a.t)))
 def node_name(a):
     raise RuntimeError('uninterpreted attribute: symbolic only')
+
+
+@prim(lambda ex, a: VStr(z3.Function('entry_prefix', __import__('pyvc.values', fromlist=['ITEM_SORT']).ITEM_SORT, z3.StringSort())(a.t)))
+def entry_prefix(a):
+    raise RuntimeError('uninterpreted attribute: symbolic only')
